@@ -10,6 +10,8 @@ const INPUTS: &[&str] = &[
     "ab/x\\/y cd/z", "a/x\\ y b/z", "a/\\\\ b", "a/x\\", "a|b/x\\|y|c/z", "a/x\\-y-b", "a/\\/|b", "a/x/ b//y", "a//|b/ /", "a/x\0|b", "火/名詞\\/固有|星",
     // characters a "helpful" normalisation might treat specially: BOM, zero-width space, combining mark, 4-byte scalar, CR/LF
     "\u{feff}ab", "\u{feff}", "a\u{feff}", "\u{200b}a", "e\u{301}", "😀a", "a\r\nb",
+    // ASCII between and around the letter ranges, characters at the edges of the character classes, line ends
+    "a_b", "x[0]", "^`]_[", "@AZ[`az{", "/09:", "ア・ー", "ぁゖ\u{3097}", "０９：Ａｚ｛", "ｦﾟ\u{ff65}", "a\r", "a/x\r", "\r", "a b\r",
 ];
 
 #[derive(Clone, Copy, Debug, PartialEq)]
@@ -38,6 +40,11 @@ fn observe(s: &Sentence) -> Result<Obs, String> {
     }
     if !s.boundary_scores().is_empty() {
         return Err("scores present after update".into());
+    }
+    // "character types ... describe exactly the new input, one type per character"
+    let want_types: Vec<u8> = s.as_raw_text().chars().map(crate::gen::char_type).collect();
+    if s.char_types() != &want_types[..] {
+        return Err(format!("character types {:?} of {:?}, expected {:?}", s.char_types(), s.as_raw_text(), want_types));
     }
     let mut tok = String::new();
     s.write_tokenized_text(&mut tok);
